@@ -18,10 +18,13 @@ void _ZdaPvm(u8* p, u64 n) { if (p) { FREE_HOOK(p); free(p); } }
 void v_assume(u1 c) { __CPROVER_assume(c); }
 void v_assert(u1 c, u8* msg) { __CPROVER_assert(c, "harness property (uninlined)"); }
 void v_witness(u8* msg) { __CPROVER_assert(0, "WITNESS (uninlined)"); }
-u8  v_nondet_u8(void)  { u8 r = nondet_uchar(); return r; }
-u32 v_nondet_u32(void) { u32 r = nondet_uint(); return r; }
-u64 v_nondet_u64(void) { u64 r = nondet_ull(); return r; }
-u1  v_nondet_bool(void) { u1 r = nondet_bool(); return r; }
+/* every symbolic input is also logged in call order: counterexample extraction reads v_trace_vals[] from the trace */
+u64 v_trace_vals[512]; u32 v_trace_n;
+static void v_trace_log(u64 v) { if (v_trace_n < 512) v_trace_vals[v_trace_n] = v; v_trace_n++; }
+u8  v_nondet_u8(void)  { u8 r = nondet_uchar(); v_trace_log(r); return r; }
+u32 v_nondet_u32(void) { u32 r = nondet_uint(); v_trace_log(r); return r; }
+u64 v_nondet_u64(void) { u64 r = nondet_ull(); v_trace_log(r); return r; }
+u1  v_nondet_bool(void) { u1 r = nondet_bool(); v_trace_log(r); return r; }
 #ifndef V_PARAM0
 #define V_PARAM0 0
 #endif
